@@ -79,6 +79,11 @@ Definition find_req (rid : N) (calls : list call) : option req :=
 Definition find_dial (cid : N) (dials : list (N * bytes * bool)) : option (bytes * bool) :=
   match find (fun d => fst (fst d) =? cid) dials with Some (_, a, t) => Some (a, t) | None => None end.
 Definition via_client (r : req) : bool := match r_via r with ViaClient => true | _ => false end.
+(* One request object may be sent several times (user-level retry, fan-out to several clients): every send is a call of the history
+   carrying the same request id and the scheme/host the caller set last.  [sends rid] are all of them. *)
+Definition sends (rid : N) (calls : list call) : list req := filter (fun r => r_id r =? rid) (flat_map call_reqs calls).
+Definition all_via_client (rid : N) (calls : list call) : bool := forallb via_client (sends rid calls).
+Definition sent_once (rid : N) (calls : list call) : bool := (length (sends rid calls) =? 1)%nat.
 
 (* requests submitted to stand-alone HostClient i (directly or through the LBClient) whose scheme does not match IsTLS *)
 Definition mismatching (hcs : list hcfg) (c : call) : list req :=
@@ -99,7 +104,7 @@ Definition hist_ok (keeps_addr : bool) (hcs : list hcfg) (calls : list call)
         | Some r, Some (addr, tls) =>
             if https_scheme (r_scheme r)
             then tls && viaTLS && negb (existsb (nn_eqb (cid, rid)) plain)
-                 && (if via_client r && keeps_addr then beq addr (own_addr (r_host r) true) else true)
+                 && (if all_via_client rid calls && keeps_addr then beq addr (own_addr (r_host r) true) else true)
             else negb tls && negb viaTLS          (* not on a connection created for https *)
         | _, _ => false                            (* a request nobody submitted, or an unknown connection *)
         end) writes
@@ -107,8 +112,9 @@ Definition hist_ok (keeps_addr : bool) (hcs : list hcfg) (calls : list call)
       && forallb (fun p => match find_req (snd p) calls with
                            | Some r => negb (https_scheme (r_scheme r)) | None => false end) plain
       (* HostClient refuses mismatching schemes: such a request reaches no connection *)
-      && forallb (fun r => negb (existsb (fun w => snd (fst w) =? r_id r) writes)
-                           && negb (existsb (fun p => snd p =? r_id r) plain))
+      && forallb (fun r => negb (sent_once (r_id r) calls)      (* an object also sent elsewhere legitimately shows up there *)
+                           || (negb (existsb (fun w => snd (fst w) =? r_id r) writes)
+                               && negb (existsb (fun p => snd p =? r_id r) plain)))
                  (flat_map (mismatching hcs) calls).
 
 (* "to its own host" is judged unless the user's ConfigureClient itself redirected the HostClient to another address (conf 2) *)
